@@ -77,6 +77,39 @@ fn eval(cmd: &Value) -> Value {
             };
             json!({"result": s})
         }
+        // the shared signing helper under concurrent use with two different keys: every MAC must be the one a
+        // single-threaded call yields for that key and input
+        "sig_stress" => {
+            let keys: Vec<String> = cmd["keys"].as_array().unwrap().iter().map(|k| k.as_str().unwrap().to_string()).collect();
+            let threads = cmd["threads"].as_u64().unwrap_or(4) as usize;
+            let iters = cmd["iters"].as_u64().unwrap_or(10000) as usize;
+            let input = b"GET\n\nhost:h\n/x\na=1".to_vec();
+            let reference: Vec<String> = keys
+                .iter()
+                .map(|k| crate::common::helpers::compute_signature(k, &input).unwrap_or_default())
+                .collect();
+            let mism = std::sync::Arc::new(std::sync::atomic::AtomicU64::new(0));
+            let mut hs = Vec::new();
+            for t in 0..threads {
+                let keys = keys.clone();
+                let reference = reference.clone();
+                let input = input.clone();
+                let mism = mism.clone();
+                hs.push(std::thread::spawn(move || {
+                    for i in 0..iters {
+                        let k = (t + i / 3) % keys.len();
+                        let got = crate::common::helpers::compute_signature(&keys[k], &input).unwrap_or_default();
+                        if got != reference[k] {
+                            mism.fetch_add(1, std::sync::atomic::Ordering::Relaxed);
+                        }
+                    }
+                }));
+            }
+            for h in hs {
+                let _ = h.join();
+            }
+            json!({"mismatches": mism.load(std::sync::atomic::Ordering::Relaxed), "calls": threads * iters, "reference": reference})
+        }
         "skip_sig" => {
             let m = hyper::Method::from_bytes(cmd["method"].as_str().unwrap_or("GET").as_bytes()).unwrap();
             match hyper::Uri::from_str(cmd["target"].as_str().unwrap_or("/")) {
